@@ -132,7 +132,8 @@ class VM:
 
     def run(self, compiled: CompiledFunction) -> JSValue:
         """Run compiled bytecode and return result."""
-        self.start_time = time.monotonic()
+        if self.start_time is None:  # nested eval/Function inherit the outer start
+            self.start_time = time.monotonic()
 
         # Create initial call frame
         frame = CallFrame(
